@@ -20,8 +20,10 @@ import (
 	"math/rand"
 	"os"
 	"reflect"
+	"runtime"
 	"strings"
 	"sync"
+	"sync/atomic"
 	"time"
 
 	stackage "github.com/JesseCoretta/go-stackage"
@@ -430,19 +432,26 @@ func cmdStress(args []string) {
 		}
 		h := History{Init: ij, Hist: make([][]HEvent, G), Flags: []string{}, Mode: "stress"}
 		var wg sync.WaitGroup
-		start := make(chan struct{})
+		// spin-aligned start: every goroutine is already running (and spinning) when the flag flips,
+		// so that the first calls overlap within tens of nanoseconds instead of a channel wake-up apart
+		var ready, goFlag int32
 		for g := 0; g < G; g++ {
 			g := g
 			wg.Add(1)
 			go func() {
 				defer wg.Done()
-				<-start
+				atomic.AddInt32(&ready, 1)
+				for atomic.LoadInt32(&goFlag) == 0 {
+				}
 				for _, c := range progs[g] {
 					h.Hist[g] = append(h.Hist[g], HEvent{C: c, Ret: applyInner(o, nil, c)})
 				}
 			}()
 		}
-		close(start)
+		for atomic.LoadInt32(&ready) < int32(G) {
+			runtime.Gosched()
+		}
+		atomic.StoreInt32(&goFlag, 1)
 		donech := make(chan struct{})
 		go func() { wg.Wait(); close(donech) }()
 		select {
@@ -483,6 +492,182 @@ func cmdStress(args []string) {
 	fmt.Printf("{\"rounds\": %d, \"flagged\": %d}\n", done, flagged)
 }
 
+// ---------------------------------------------------------------- watch: what an unlocked reader sees DURING one mutator
+
+// WatchRec is one sequential run of mutators on a mutex-enabled stack with sampler goroutines reading
+// Len() all the time -- exactly what the unlocked emptiness pre-checks of the public wrappers do.  seen[i]
+// holds the distinct lengths sampled while call i was executing.  Watch.tla judges it: every sampled
+// length lies between the specified lengths before and after that call (a critical section never shows
+// the stack shorter or longer than both its ends), and returns / final content follow ListOps!Step.
+type WatchRec struct {
+	Init  json.RawMessage `json:"init"`
+	Calls []Call          `json:"calls"`
+	Rets  [][]string      `json:"rets"`
+	Seen  [][]int         `json:"seen"`
+	Final []string        `json:"final"`
+	Flags []string        `json:"flags"`
+}
+
+func cmdWatch(args []string) {
+	fs := flag.NewFlagSet("watch", flag.ExitOnError)
+	out := fs.String("out", "", "records ndjson")
+	rounds := fs.Int("rounds", 5000, "rounds")
+	seed := fs.Int64("seed", 1, "seed")
+	maxOps := fs.Int("ops", 6, "max calls per round")
+	nSamp := fs.Int("samplers", 3, "sampler goroutines")
+	_ = fs.Parse(args)
+	of, err := os.Create(*out)
+	if err != nil {
+		die(2, "%v", err)
+	}
+	defer of.Close()
+	w := bufio.NewWriterSize(of, 1<<20)
+	defer w.Flush()
+	enc := json.NewEncoder(w)
+	rng := rand.New(rand.NewSource(*seed))
+	samples, flagged := 0, 0
+	const maxLen = 64
+	for r := 0; r < *rounds; r++ {
+		init := AState{Live: true, Kind: "AND", Cap: []int{0, 0, 4, 6}[rng.Intn(4)], Mtx: true, Fifo: rng.Intn(2) == 0, Err: "none", VPol: "none"}
+		n := rng.Intn(5)
+		if init.Cap > 0 && n > init.Cap {
+			n = init.Cap
+		}
+		for i := 0; i < n; i++ {
+			init.E = append(init.E, fmt.Sprintf("i%d", i))
+		}
+		init = init.Canon()
+		ij, _ := json.Marshal(init)
+		k := 1 + rng.Intn(*maxOps)
+		rec := WatchRec{Init: ij, Flags: []string{}}
+		for i := 0; i < k; i++ {
+			c := randMutator(rng, 50)
+			if rng.Intn(3) == 0 {
+				c = Call{"op": "Pop"} // the call whose critical section rewrites the header most
+			}
+			rec.Calls = append(rec.Calls, normCall(c))
+		}
+		cnt := watchRun(init, &rec, *nSamp)
+		samples += cnt
+		if len(rec.Flags) > 0 {
+			flagged++
+		}
+		_ = enc.Encode(rec)
+	}
+	fmt.Printf("{\"rounds\": %d, \"samples\": %d, \"flagged\": %d}\n", *rounds, samples, flagged)
+}
+
+// watchRun executes rec.Calls one after the other on a fresh object built from init while nSamp goroutines
+// sample Len(); it fills Rets, Seen, Final and Flags and returns the number of attributed samples.
+func watchRun(init AState, rec *WatchRec, nSamp int) int {
+	const maxLen = 64
+	k := len(rec.Calls)
+	samples := 0
+	rec.Rets, rec.Seen, rec.Flags = nil, nil, []string{}
+	{
+		o := Build(init)
+		var phase int32 = -1
+		var stop, started int32
+		seen := make([][][maxLen + 1]bool, nSamp)
+		counts := make([]int, nSamp)
+		var wg sync.WaitGroup
+		for sidx := 0; sidx < nSamp; sidx++ {
+			sidx := sidx
+			seen[sidx] = make([][maxLen + 1]bool, k)
+			wg.Add(1)
+			go func() {
+				defer wg.Done()
+				atomic.AddInt32(&started, 1)
+				for atomic.LoadInt32(&stop) == 0 {
+					p1 := atomic.LoadInt32(&phase)
+					l := o.S.Len()
+					p2 := atomic.LoadInt32(&phase)
+					if p1 == p2 && p1 >= 0 && int(p1) < k {
+						if l < 0 || l > maxLen {
+							l = maxLen
+						}
+						seen[sidx][p1][l] = true
+						counts[sidx]++
+					}
+				}
+			}()
+		}
+		for atomic.LoadInt32(&started) < int32(nSamp) {
+			runtime.Gosched()
+		}
+		for i, c := range rec.Calls {
+			atomic.StoreInt32(&phase, int32(i))
+			rec.Rets = append(rec.Rets, applyInner(o, nil, c))
+		}
+		atomic.StoreInt32(&phase, int32(k))
+		atomic.StoreInt32(&stop, 1)
+		wg.Wait()
+		for i := 0; i < k; i++ {
+			ls := []int{}
+			for l := 0; l <= maxLen; l++ {
+				for sidx := range seen {
+					if seen[sidx][i][l] {
+						ls = append(ls, l)
+						break
+					}
+				}
+			}
+			rec.Seen = append(rec.Seen, ls)
+		}
+		for _, cnt := range counts {
+			samples += cnt
+		}
+		for _, ret := range rec.Rets {
+			if len(ret) > 0 && ret[0] == "PANIC" {
+				rec.Flags = append(rec.Flags, "panic: "+ret[1])
+			}
+		}
+		var fl []string
+		rec.Final, fl = finalElems(o.S)
+		rec.Flags = append(rec.Flags, fl...)
+	}
+	return samples
+}
+
+func replayWatch(b []byte) {
+	var rec struct {
+		Rec   WatchRec   `json:"record"`
+		Lens  []int      `json:"lens"`
+		Rets  [][]string `json:"rets"`
+		Final []string   `json:"final"`
+	}
+	if err := json.Unmarshal(b, &rec); err != nil {
+		die(2, "replay file: %v", err)
+	}
+	var init AState
+	if err := json.Unmarshal(rec.Rec.Init, &init); err != nil {
+		die(2, "replay file init: %v", err)
+	}
+	for attempt := 0; attempt < 400; attempt++ {
+		r := WatchRec{Init: rec.Rec.Init, Calls: rec.Rec.Calls}
+		watchRun(init, &r, 3)
+		j1, _ := json.Marshal([]any{r.Rets, r.Final})
+		j2, _ := json.Marshal([]any{rec.Rets, rec.Final})
+		if string(j1) != string(j2) || len(r.Flags) > 0 {
+			fmt.Printf("DISAGREES kind=watch (returns / final content differ from the specified ones)\n  specified %s\n  observed  %s flags=%v\n", j2, j1, r.Flags)
+			os.Exit(1)
+		}
+		for i, ls := range r.Seen {
+			lo, hi := rec.Lens[i], rec.Lens[i+1]
+			if lo > hi {
+				lo, hi = hi, lo
+			}
+			for _, l := range ls {
+				if l < lo || l > hi {
+					fmt.Printf("DISAGREES kind=watch (attempt %d: during call %d %v an unlocked reader saw length %d; specified length before %d, after %d)\n", attempt+1, i+1, r.Calls[i], l, rec.Lens[i], rec.Lens[i+1])
+					os.Exit(1)
+				}
+			}
+		}
+	}
+	fmt.Printf("AGREES (400 attempts: every sampled length between the specified ends)\n")
+}
+
 func replaySched(b []byte) {
 	var rec struct {
 		Sched SchedLine `json:"schedule"`
@@ -504,5 +689,7 @@ func replaySched(b []byte) {
 func init() {
 	commands["gated"] = cmdGated
 	commands["stress"] = cmdStress
+	commands["watch"] = cmdWatch
 	replayKinds["sched"] = replaySched
+	replayKinds["watch"] = replayWatch
 }
